@@ -343,12 +343,11 @@ class DualPortSynchronousMemory(Logic):
         # always reading
         #print(f'reading address {add} = {self.data[add]}')
         self.readdata_a.prepare(self.data[radda])
+        self.readdata_b.prepare(self.data[raddb])
         
         if (self.write_a.get()):
             self.data[wadda] = self.writedata_a.get()
             
-        self.readdata_b.prepare(self.data[raddb])
-        
         if (self.write_b.get()):
             self.data[waddb] = self.writedata_b.get()
 
